@@ -241,7 +241,10 @@ def _process_post_render_queue(
             # Allow to optionally override/modify the rendered content from outside
             component_html = "".join(parent_parts)
             on_component_rendered = on_component_rendered_callbacks[curr_item.parent_id]
-            component_html = on_component_rendered(component_html)  # type: ignore[arg-type]
+            # NOTE: `on_component_rendered` calls the `on_render_after()` hook, so, same as when rendering
+            # the component below, errors are prefixed with the path of the component.
+            with component_error_message(curr_item.component_name_path[1:]):
+                component_html = on_component_rendered(component_html)  # type: ignore[arg-type]
 
             # Add the component's HTML to parent's parent's HTML parts
             if curr_item.grandparent_id is not None:
